@@ -41,3 +41,113 @@ pub open spec fn nz_known_n(s: Seq<(&Tid, &Term<Sub>)>, n: int, m: int, t: Tid) 
     ||| (0 <= n < s.len() && m >= 0 && s[n].1.tid == t)
     ||| exists |i: int| 0 <= n < s.len() && 0 <= i < m && i < s[n].1.term.blocks@.len() && (#[trigger] s[n].1.term.blocks@[i]).tid == t
 }
+
+/// `ks` lists every key of `m` exactly once
+pub open spec fn nz_keys_of<V>(ks: Seq<Tid>, m: Map<Tid, V>) -> bool {
+    &&& ks.no_duplicates()
+    &&& forall |i: int| 0 <= i < ks.len() ==> m.contains_key(#[trigger] ks[i])
+    &&& forall |k: Tid| m.contains_key(k) ==> exists |i: int| 0 <= i < ks.len() && #[trigger] ks[i] == k
+}
+
+// ---- pass: references to nonexisting tids ------------------------------------------------------------------------------------
+
+/// THE RULE for one jump (property: "targets that existed are unchanged; the others point to the artificial sink block / the
+/// artificial sink sub"): `known` = the tids that exist.
+///   Branch / CBranch to an unknown tid      -> the artificial sink block (of the artificial sink sub)
+///   Call to an unknown tid                  -> a call of the artificial sink sub WITHOUT return target
+///   Call / CallInd / CallOther returning to an unknown tid -> returns to the artificial sink block
+///   everything else                         -> unchanged
+pub open spec fn nz_retarget(j: Jmp, known: Set<Tid>) -> Jmp {
+    match j {
+        Jmp::Branch(t) => if !known.contains(t) { Jmp::Branch(nz_sink_blk(Seq::<char>::empty())) } else { j },
+        Jmp::CBranch { target, condition } => if !known.contains(target) { Jmp::CBranch { target: nz_sink_blk(Seq::<char>::empty()), condition } } else { j },
+        Jmp::Call { target, return_ } =>
+            if !known.contains(target) { Jmp::Call { target: nz_sink_sub(), return_: None } }
+            else if return_ is Some && !known.contains(return_->Some_0) { Jmp::Call { target, return_: Some(nz_sink_blk(Seq::<char>::empty())) } }
+            else { j },
+        Jmp::CallInd { target, return_ } =>
+            if return_ is Some && !known.contains(return_->Some_0) { Jmp::CallInd { target, return_: Some(nz_sink_blk(Seq::<char>::empty())) } } else { j },
+        Jmp::CallOther { description, return_ } =>
+            if return_ is Some && !known.contains(return_->Some_0) { Jmp::CallOther { description, return_: Some(nz_sink_blk(Seq::<char>::empty())) } } else { j },
+        Jmp::BranchInd(e) => j,
+        Jmp::Return(e) => j,
+    }
+}
+
+/// the first `n` indirect-jump target hints, without those that do not exist (order kept)
+pub open spec fn nz_keep(h: Seq<Tid>, known: Set<Tid>, n: int) -> Seq<Tid>
+    decreases n
+{
+    if n <= 0 { Seq::empty() } else {
+        let r = nz_keep(h, known, n - 1);
+        if known.contains(h[n - 1]) { r.push(h[n - 1]) } else { r }
+    }
+}
+
+/// block `b1` is block `b0` after the pass: same tid, same defs, same jumps with retargeted targets, hints filtered
+pub open spec fn nz_refs_blk(b0: Term<Blk>, b1: Term<Blk>, known: Set<Tid>) -> bool {
+    &&& b1.tid == b0.tid
+    &&& b1.term.defs == b0.term.defs
+    &&& b1.term.jmps@.len() == b0.term.jmps@.len()
+    &&& forall |j: int| 0 <= j < b0.term.jmps@.len() ==> (#[trigger] b1.term.jmps@[j]).tid == b0.term.jmps@[j].tid
+            && b1.term.jmps@[j].term == nz_retarget(b0.term.jmps@[j].term, known)
+    &&& b1.term.indirect_jmp_targets@ == nz_keep(b0.term.indirect_jmp_targets@, known, b0.term.indirect_jmp_targets@.len() as int)
+}
+
+/// function `s1` is function `s0` after the pass
+pub open spec fn nz_refs_sub(s0: Term<Sub>, s1: Term<Sub>, known: Set<Tid>) -> bool {
+    &&& s1.tid == s0.tid
+    &&& s1.term.name == s0.term.name
+    &&& s1.term.calling_convention == s0.term.calling_convention
+    &&& s1.term.blocks@.len() == s0.term.blocks@.len()
+    &&& forall |i: int| 0 <= i < s0.term.blocks@.len() ==> nz_refs_blk(s0.term.blocks@[i], #[trigger] s1.term.blocks@[i], known)
+}
+
+/// the whole pass
+pub open spec fn nz_refs_post(subs0: Map<Tid, Term<Sub>>, subs1: Map<Tid, Term<Sub>>, known: Set<Tid>) -> bool {
+    &&& subs1.dom() =~= subs0.dom()
+    &&& forall |k: Tid| #[trigger] subs0.contains_key(k) ==> nz_refs_sub(subs0[k], subs1[k], known)
+}
+
+/// `known` is the set of tids that exist in the program (functions, blocks, extern symbols)
+pub open spec fn nz_known_set(known: Set<Tid>, subs: Map<Tid, Term<Sub>>, ext: Map<Tid, ExternSymbol>) -> bool {
+    forall |t: Tid| #[trigger] known.contains(t) <==> nz_known(subs, ext, t)
+}
+
+/// what no pass changes: everything of the project but the functions
+pub open spec fn nz_frame(p0: Project, p1: Project) -> bool {
+    &&& p1.program.tid == p0.program.tid
+    &&& p1.program.term.extern_symbols == p0.program.term.extern_symbols
+    &&& p1.program.term.entry_points == p0.program.term.entry_points
+    &&& p1.program.term.address_base_offset == p0.program.term.address_base_offset
+    &&& p1.cpu_architecture == p0.cpu_architecture
+    &&& p1.stack_pointer_register == p0.stack_pointer_register
+    &&& p1.calling_conventions == p0.calling_conventions
+    &&& p1.register_set == p0.register_set
+    &&& p1.datatype_properties == p0.datatype_properties
+    &&& p1.runtime_memory_image == p0.runtime_memory_image
+}
+
+// ---- the artificial sinks ---------------------------------------------------------------------------------------------------
+
+/// `b` is an artificial sink block with the given name suffix: no defs, no jumps, no hints
+pub open spec fn nz_is_sink_block_term(b: Term<Blk>, suffix: Seq<char>) -> bool {
+    &&& b.tid == nz_sink_blk(suffix)
+    &&& b.term.defs@.len() == 0
+    &&& b.term.jmps@.len() == 0
+    &&& b.term.indirect_jmp_targets@.len() == 0
+}
+
+/// `s` is the artificial sink function: its tid, ONE block, the artificial sink block without suffix
+pub open spec fn nz_is_sink_sub_term(s: Term<Sub>) -> bool {
+    &&& s.tid == nz_sink_sub()
+    &&& s.term.blocks@.len() == 1
+    &&& nz_is_sink_block_term(s.term.blocks@[0], Seq::<char>::empty())
+}
+
+/// add_artifical_sink: the artificial sink function is stored under its tid; nothing else changes
+pub open spec fn nz_sink_added(subs0: Map<Tid, Term<Sub>>, subs1: Map<Tid, Term<Sub>>) -> bool {
+    &&& subs1.dom() =~= subs0.dom().insert(nz_sink_sub())
+    &&& nz_is_sink_sub_term(subs1[nz_sink_sub()])
+    &&& forall |k: Tid| #[trigger] subs0.contains_key(k) && k != nz_sink_sub() ==> subs1[k] == subs0[k]
+}
